@@ -841,6 +841,41 @@ def deletePicRel (own others : List Rel) (media : List Str) (imgType rid : Str) 
     let used := others.any fun o => o.type == imgType && o.target == r.target
     (own.filter (fun x => x.id != rid), if used then media else media.filter (· != r.target))
 
+/-! ### the reference graph: parts, relationships (source, id, resolved target), uses of ids -/
+
+/-- what `rel-target` and `rid-resolves` of `WF` speak about, as a state: every object kind
+(drawing → chart / media, VML, comments, tables, slicers, pivot tables) lives in this graph -/
+structure RefG where
+  parts : List Str
+  rels : List (Str × Str × Str)
+  uses : List (Str × Str)
+deriving Repr
+
+namespace RefG
+def addPart (g : RefG) (p : Str) : RefG := { g with parts := g.parts ++ [p] }
+def addRel (g : RefG) (s i t : Str) : RefG := { g with rels := g.rels ++ [(s, i, t)] }
+def addUse (g : RefG) (p i : Str) : RefG := { g with uses := g.uses ++ [(p, i)] }
+/-- an object is removed from its container: one use of a relationship id goes away -/
+def dropUse (g : RefG) (p i : Str) : RefG := { g with uses := g.uses.erase (p, i) }
+def dropRel (g : RefG) (s i : Str) : RefG := { g with rels := g.rels.filter fun r => !(r.1 == s && r.2.1 == i) }
+def dropPart (g : RefG) (p : Str) : RefG := { g with parts := g.parts.filter (· != p) }
+
+/-- AddChart / AddShape / AddPicture / AddComment / AddFormControl / AddSlicer by class: the
+container (drawing, VML drawing …) is created and linked from the worksheet on first use, the
+leaf part (chart, media, comments, slicer …) is created and linked from the container -/
+def addObject (g : RefG) (sheet container leaf ridS ridC : Str) (firstInSheet newLeaf : Bool) : RefG :=
+  let g1 := if firstInSheet then ((g.addPart container).addRel sheet ridS container).addUse sheet ridS else g
+  let g2 := if newLeaf then g1.addPart leaf else g1
+  (g2.addRel container ridC leaf).addUse container ridC
+
+/-- DeleteChart (regenerated fact `deleteChartKeepsParts`): only the anchor leaves the drawing;
+chart part, relationship and Override stay -/
+def deleteChart (g : RefG) (container ridC : Str) : RefG := g.dropUse container ridC
+
+/-- DeleteTable: tablePart entry, worksheet relationship and table part go together -/
+def deleteTable (g : RefG) (sheet rid table : Str) : RefG := ((g.dropUse sheet rid).dropRel sheet rid).dropPart table
+end RefG
+
 /-! ### shared strings (cell.go `setSharedString`, tail of `SetCellRichText`) -/
 
 inductive SI where
